@@ -5,9 +5,16 @@ package core
 
 import (
 	"encoding/json"
+	"fmt"
 	"hash/fnv"
+	"os"
 	"sort"
+	"strings"
 )
+
+// VERIF_DUMP=<substring>: workers print every case whose outcome class
+// contains the substring (debugging aid).
+var dumpStatus = os.Getenv("VERIF_DUMP")
 
 type Tier string
 
@@ -156,6 +163,9 @@ func (r *Reporter) Evals(n int) { r.rec.Evals += int64(n) }
 // by the check's rule, and an outcome class for the histogram.
 func (r *Reporter) Case(text string, nontrivial bool, outcome string) {
 	r.rec.Cases++
+	if dumpStatus != "" && strings.Contains(outcome, dumpStatus) {
+		fmt.Fprintf(os.Stderr, "DUMP [%s] %s\n", outcome, text)
+	}
 	h := hash64(text)
 	if _, dup := r.seen[h]; dup {
 		r.rec.Dups++
